@@ -52,9 +52,9 @@ func init() {
 	def(&propDef{
 		id: "C11", title: "Lifecycle: Close and Unbind stop activity and never strand a caller",
 		explanation: "Decides for every go statement, goroutine loop, API-path channel operation, lifecycle channel and per-stream container: D1 each goroutine is dominated by WaitGroup.Add on a field of its owner, its entry defers Done, the owner's Close reaches Wait on every path; D2 every blocking loop in a goroutine has a select case on (or ranges over) a channel that a Close method closes, and that case leaves the loop; " +
-			"D3 every send/receive on an internal channel in a function reachable from the API sits in a select with a close-channel case or a default; D4 close(lifecycle) and the start sequence share a mutex; D5 every container keyed by StreamInfo.SSRC that Bind{Local,Remote}Stream fills is emptied by the Unbind of the same direction and binding installs fresh state; D6 Bind starts a goroutine only on the not-closed branch of a closed test.",
+			"D3 every send/receive on an internal channel in a function reachable from the API sits in a select with a close-channel case or a default; D4 close(lifecycle) and the start sequence share a mutex; D5 every container keyed by StreamInfo.SSRC that Bind{Local,Remote}Stream fills is emptied by the Unbind of the same direction and binding installs fresh state; D6 Bind starts a goroutine only on the not-closed branch of a closed test; C5(wait) a WaitGroup.Wait or blocking channel operation executed while a lock is held (including a lock held by the caller of Close) has no counterpart goroutine that can need that lock — Close cannot deadlock against the goroutine it waits for.",
 		notDecided:  "wall-clock promptness; goroutines blocked inside a user-supplied writer; that nothing is written after Close returns when the goroutine is accounted but slow; double Close",
-		sels:        []sel{s("D1"), s("D2"), s("D3"), s("D4"), s("D5"), s("D6")},
+		sels:        []sel{s("D1"), s("D2"), s("D3"), s("D4"), s("D5"), s("D6"), s("C5", `\|wait:`)},
 		assumptions: append([]string{"channels are identified by the struct fields / make sites they flow through (parameters resolved through static call sites)", "only closes executed from a Close method count as shutdown signals"}, stdAssume...),
 	})
 }
@@ -173,7 +173,7 @@ func init() {
 		explanation: "Decides: S1 — every store into a field of the exported *StreamStats structs in the recorder's record* methods is dominated by a branch condition computed from the recorder's own SSRC (header SSRC, MediaSSRC, report SSRC or DestinationSSRC membership compared with r.ssrc): a counter only moves for traffic addressed to that SSRC; S2 — the loops over the packets of a compound RTCP have no early exit (every packet of the compound is visited); S3 — no branch inside such a loop tests a loop-carried boolean that was computed from the recorder's SSRC for an earlier packet (each packet is judged by itself); " +
 			"A1/A2 on the four stats closures — every forwarded / successfully read packet is handed to the recorder exactly once and a failed read never is; C1/C6 — latestStats is only read and updated under recorder.ms in one critical section (no lost update).",
 		notDecided:  "every formula: packets lost as expected-minus-received, jitter, RTT from LSR/DLSR and DLRR, fraction lost, NTP conversions — numerical",
-		sels:        []sel{s("S1"), s("S2"), s("S3"), s("S4"), s("A1", `stats\.`), s("A2", `stats\.`), s("C1", `stats\.`), s("C6", `stats\.`)},
+		sels:        []sel{s("S1"), s("S2"), s("S3"), s("S4"), s("S5"), s("A1", `stats\.`), s("A2", `stats\.`), s("C1", `stats\.`), s("C6", `stats\.`)},
 		assumptions: std,
 	}
 }
